@@ -1,7 +1,9 @@
 SPECIFICATION Spec
 CONSTANTS Mech = "spec"
  SessionKey = "K"
+ HqBound = 0
  MaxReqs = 3
+ Burst = 3
  Tags = {"ok", "stmt", "print", "err", "perr", "syntax", "complete_request", "is_complete_request", "kernel_info_request", "forged-key", "forged-sig", "forged-content"}
  TwoClients = TRUE
  Stores = {TRUE, FALSE}
